@@ -536,6 +536,18 @@ def sym_min(x, axis=None, keepdims=False, **kw):
     return _reduce_sel(x, axis, keepdims, lambda a, b: ite(C(a) <= C(b), a, b))
 
 
+def _sort_gt(a, b):
+    """NumPy's sort order: complex values are ordered lexicographically (real part, then imaginary part)"""
+    if a.im.is_zero() and b.im.is_zero():
+        return bool(a > b)
+    ar, br = Sym(a.re), Sym(b.re)
+    if bool(ar > br):
+        return True
+    if bool(ar < br):
+        return False
+    return bool(Sym(a.im) > Sym(b.im))
+
+
 def sym_argsort(x, axis=-1, **kw):
     """insertion sort with forking comparisons (stable, like the default for small arrays the
     result of a correct sort is unique whenever the keys are distinct)"""
@@ -553,7 +565,7 @@ def sym_argsort(x, axis=-1, **kw):
     idx = list(range(len(v)))
     for i in range(1, len(idx)):
         j = i
-        while j > 0 and bool(C(v[idx[j - 1]]) > C(v[idx[j]])):
+        while j > 0 and _sort_gt(C(v[idx[j - 1]]), C(v[idx[j]])):
             idx[j - 1], idx[j] = idx[j], idx[j - 1]
             j -= 1
     return np.array(idx, dtype=np.int64)
